@@ -24,4 +24,12 @@ table['__digests__'] = {
     for rel in mods}
 with open(canon.TABLE_PATH, 'w') as fh:
     json.dump(table, fh, indent=0, sort_keys=True)
+import gzip
+ft = canon.build_fn_table(mods)
+with gzip.GzipFile(canon.FN_TABLE_PATH, 'wb', mtime=0) as gz:
+    gz.write(json.dumps(ft, sort_keys=True).encode())
+bad = canon.operators_plain(mods)
+if bad:
+    print('WARNING: operator methods defined:', bad)
+print(len(ft), 'function normal forms')
 print(len(table) - 1, 'functions,', sum(len(v) for k, v in table.items() if k != '__digests__'), 'locals')
